@@ -146,9 +146,9 @@ def pushRx (w : World) (cid : Nat) (e : RxEv) : World :=
       { w with inbox := w.inbox.map fun (k, l) => if k == cid then (k, l ++ [e]) else (k, l) }
     else { w with inbox := w.inbox ++ [(cid, [e])] }
 
-partial def event (sm : Sim) (ev : String) : Sim :=
+partial def event (sm : Sim) (ev : String) (nested : Bool := false) : Sim :=
   let t := ev.splitOn " "
-  let sm := { sm with lines := sm.lines ++ [s!"EV {ev}"] }
+  let sm := { sm with lines := sm.lines ++ [(if nested then "EVN " else "EV ") ++ ev] }
   let sm : Sim :=
     match t with
     | "start" :: rest =>
@@ -185,6 +185,8 @@ partial def event (sm : Sim) (ev : String) : Sim :=
       let w := if b == "1" then { sm.w with blocked := sm.w.blocked ++ [cid] }
                else { sm.w with blocked := sm.w.blocked.filter (· != cid) }
       ({ sm with w := w }).settle
+    | ["sethbh", k, v] =>
+      { sm with w := { sm.w with st := sm.w.st.modConn (k.toNat?.getD 0) fun c => { c with hbh := v.toNat?.getD 0 } } }
     | ["dial", plan] =>
       { sm with w := { sm.w with st := { sm.w.st with dialPlan := sm.w.st.dialPlan ++ plan.splitOn "," } } }
     | ["conn", k, r] =>
@@ -210,7 +212,7 @@ partial def event (sm : Sim) (ev : String) : Sim :=
       let ai := a.toNat?.getD 0
       let m0 := { parseMsg d with hbh := 0 }
       let timeout := match rest with | x :: _ => x.toNat?.getD 30 | [] => 30
-      let wev := (rest.drop 1).map fun x => x.replace "_" " "
+      let wev := (rest.drop 1).map fun x => if x.contains '_' then x.replace "_" " " else x.replace "~" " "
       match appSendRequestBegin sm.w.st ai m0 (sm.infoOf m0) with
       | (s, .error e) =>
         let nm := match e with | .notRoutable => "NotRoutable" | .attributeError => "AttributeError" | _ => "Other"
@@ -219,15 +221,16 @@ partial def event (sm : Sim) (ev : String) : Sim :=
       | (s, .ok m) =>
         -- Event.wait(): settle, play the scripted events, then see whether the answer came
         let sm := ({ sm with w := { sm.w with st := s } }).settle
-        let sm := wev.foldl (fun sm e => event sm e) sm
+        let sm := wev.foldl (fun sm e => event sm e true) sm
         -- did the waiter get its answer?
         let st := sm.w.st
         let gotMsg := (st.delivered.filter fun p => p.1 == ai && p.2.hbh == m.hbh).getLast?
         let st := { st with delivered := st.delivered.filter fun p => !(p.1 == ai && p.2.hbh == m.hbh) }
         let st := if gotMsg.isSome then st else { st with now := st.now + timeout }
-        let st := appSendRequestEnd st ai m.hbh
+        let (st, present) := appSendRequestEnd st ai m.hbh
         let sm := { sm with w := { sm.w with st := st } }
-        let sm := match gotMsg with
+        let sm := if !present then { sm with lines := sm.lines ++ [s!"APP a{ai} RAISE KeyError"] }   -- `finally: del` of a slot already gone
+          else match gotMsg with
           | some (_, g) => { sm with lines := sm.lines ++ [s!"APP a{ai} GOT cmd={g.cmd} hbh={g.hbh} e2e={g.e2e}"] }
           | none => { sm with lines := sm.lines ++ [s!"APP a{ai} RAISE TimeoutError"] }
         sm.settle
@@ -252,7 +255,7 @@ partial def event (sm : Sim) (ev : String) : Sim :=
               let sm := { sm with w := { sm.w with st := { sm.w.st with now := sm.w.st.now + 1 } } }
               let evs := sm.waitEvents
               let sm := { sm with waitEvents := [] }
-              let sm := evs.foldl (fun sm e => event sm e) sm
+              let sm := evs.foldl (fun sm e => event sm e true) sm
               loop sm.settle (left - 1) fuel
         let sm := if force == "1" then sm else loop sm tmo (tmo + 1)
         -- `_connection_thread.join()`: the I/O thread's last pass
@@ -322,7 +325,7 @@ def runScenario (infoOf : AMsg → MsgInfo) (line : String) : List String :=
   | cfg :: evs =>
     let (st, _) := parseCfg ((cfg.drop 5).toString.trimAscii.toString)
     let sm : Sim := { w := { st := st }, infoOf := infoOf }
-    let sm := (evs.filter (· != "")).foldl event sm
+    let sm := (evs.filter (· != "")).foldl (fun sm e => event sm e) sm
     sm.lines
 
 end DV.NodeSim
